@@ -416,6 +416,9 @@ func (s *SVCBAlpn) unpack(b []byte) error {
 	for i := 0; i < len(b); {
 		length := int(b[i])
 		i++
+		if length == 0 {
+			return errors.New("bad svcbalpn: empty alpn-id")
+		}
 		if i+length > len(b) {
 			return errors.New("bad svcbalpn: alpn array overflowing")
 		}
